@@ -3,7 +3,7 @@ package main
 // C08: limit/passes semantics and clean end-of-ammo on every provider.
 //
 // One cell = one line:
-//   kind=uri preload=1 limit=2 passes=0 n=3 cons=1 cap=8 junk=0 [mode=drain|stall|ext|engine] [via=direct|cfg] [at=K] [shots=S] [pad=P]
+//   kind=uri preload=1 limit=2 passes=0 n=3 cons=1 cap=8 junk=0 [mode=drain|stall|ext|engine] [via=direct|cfg] [at=K] [shots=S] [pad=P] [eol=E] [idle=1] [gate=G]
 // kinds: uri uris uripost raw jsonl jsonarr (components/providers/http, with and without preload), grpcjson,
 // httpscn, grpcscn (scenario providers), genjson (core/provider JSON provider over MultiPassReader).
 // See harness/c08cell for what each mode does.  Observation per mode:
@@ -70,6 +70,8 @@ type cell struct {
 	mode, via             string
 	at, shots, pad        int
 	jit                   int
+	eol, gate             int
+	idle                  bool
 }
 
 func b2i(x bool) int {
@@ -100,6 +102,15 @@ func (c cell) line() string {
 	if c.pad != 0 {
 		s += fmt.Sprintf(" pad=%d", c.pad)
 	}
+	if c.eol != 0 {
+		s += fmt.Sprintf(" eol=%d", c.eol)
+	}
+	if c.idle {
+		s += " idle=1"
+	}
+	if c.gate != 0 {
+		s += fmt.Sprintf(" gate=%d", c.gate)
+	}
 	return s
 }
 
@@ -119,7 +130,8 @@ func gen(r *rand.Rand, tier string) []string {
 			for passes := 0; passes <= maxP; passes++ {
 				for n := 1; n <= maxN; n++ {
 					for _, cons := range []int{1, 3} {
-						add(cell{v: v, limit: limit, passes: passes, n: n, cons: cons, cap: capFor(limit, passes, n), junk: (limit+passes+n)%2 == 1})
+						// the shape of the line ends varies with the cell: every (kind, bound shape) meets every shape
+						add(cell{v: v, limit: limit, passes: passes, n: n, cons: cons, cap: capFor(limit, passes, n), junk: (limit+passes+n)%2 == 1, eol: (limit + 2*passes + 3*n + cons) % 4})
 					}
 				}
 			}
@@ -198,7 +210,7 @@ func gen(r *rand.Rand, tier string) []string {
 			for _, pad := range pads {
 				for at := 0; at <= maxAt; at++ {
 					cons := 1 + (at+b.n)%3
-					add(cell{v: v, limit: b.limit, passes: b.passes, n: b.n, cons: cons, cap: capFor(b.limit, b.passes, b.n), mode: "ext", at: at, pad: pad, junk: at%2 == 1})
+					add(cell{v: v, limit: b.limit, passes: b.passes, n: b.n, cons: cons, cap: capFor(b.limit, b.passes, b.n), mode: "ext", at: at, pad: pad, junk: at%2 == 1, eol: (at / 2) % 4})
 				}
 			}
 		}
@@ -243,6 +255,25 @@ func gen(r *rand.Rand, tier string) []string {
 						}
 						add(cell{v: v, limit: b.limit, passes: b.passes, n: b.n, cons: inst, mode: "engine", via: "cfg", shots: sh, jit: rep})
 					}
+				}
+			}
+		}
+	}
+
+	// E2. a run that shoots nothing (schedule without a token): the instances finish at once and the engine cancels the
+	// provider wherever it is — gate=k: inside its k-th file operation (for the preloading kinds: in the middle of LoadAmmo)
+	ib := []bnd{{0, 0, 3}, {2, 0, 3}, {0, 1, 2}}
+	gates := []int{0, 1, 2, 3}
+	ipads := []int{0, 1500}
+	if thorough {
+		ib = append(ib, bnd{0, 0, 1}, bnd{7, 2, 5}, bnd{0, 3, 4})
+		gates = []int{0, 1, 2, 3, 4, 5, 6, 8}
+	}
+	for _, v := range vs {
+		for _, b := range ib {
+			for _, g := range gates {
+				for _, pad := range ipads {
+					add(cell{v: v, limit: b.limit, passes: b.passes, n: b.n, cons: 1 + (g+b.n)%3, mode: "engine", via: "cfg", idle: true, gate: g, pad: pad, eol: g % 4})
 				}
 			}
 		}
@@ -294,6 +325,7 @@ func gen(r *rand.Rand, tier string) []string {
 		if r.Intn(4) == 0 {
 			c.pad = 200 + r.Intn(1800)
 		}
+		c.eol = r.Intn(4)
 		switch r.Intn(6) {
 		case 0:
 			c.mode = "stall"
@@ -318,6 +350,9 @@ func gen(r *rand.Rand, tier string) []string {
 			c.shots = r.Intn(2) * (1 + r.Intn(40))
 			if !bounded && c.shots == 0 {
 				c.shots = 1 + r.Intn(40)
+			}
+			if r.Intn(4) == 0 {
+				c.idle, c.shots, c.gate = true, 0, r.Intn(7)
 			}
 		case 3: // cut a bounded cell somewhere
 			if bounded && m > 0 {
@@ -351,6 +386,9 @@ func run(input string) string {
 		Jit:     atoi(kv["jit"]),
 		Via:     kv["via"],
 		Shots:   atoi(kv["shots"]),
+		Eol:     atoi(kv["eol"]),
+		Idle:    kv["idle"] == "1",
+		Gate:    atoi(kv["gate"]),
 	}
 	if c.Mode == "" {
 		c.Mode = "drain"
@@ -365,7 +403,11 @@ func run(input string) string {
 	case "ext", "tcan":
 		return fmt.Sprintf("delivered=%d cut=%d fired=%d run=%s end=%s seq=%s ops=%d", o.Delivered, b2i(o.Cut), b2i(o.Fired), o.Run, o.End, o.Seq, o.Ops)
 	case "engine":
-		return fmt.Sprintf("shots=%d err=%s wait=%d seq=%s", o.Shots, o.EngErr, b2i(o.Wait), o.Seq)
+		g := ""
+		if c.Gate != 0 {
+			g = fmt.Sprintf(" gated=%d", b2i(o.Gated))
+		}
+		return fmt.Sprintf("shots=%d err=%s wait=%d seq=%s%s", o.Shots, o.EngErr, b2i(o.Wait), o.Seq, g)
 	}
 	return fmt.Sprintf("delivered=%d cut=%d run=%s end=%s seq=%s ops=%d", o.Delivered, b2i(o.Cut), o.Run, o.End, o.Seq, o.Ops)
 }
@@ -387,6 +429,9 @@ func class(input, obs string) string {
 		pre = "+preload"
 	}
 	mode := kv["mode"]
+	if kv["idle"] == "1" {
+		mode = "engine-idle"
+	}
 	if mode == "" {
 		mode = "drain"
 		if strings.Contains(obs, "cut=1") && b != "unbounded" {
@@ -407,7 +452,8 @@ func main() {
 		Rule: "real providers (public constructors, or the registered plugin factories via config.DecodeAndValidate) over an in-memory ammo file: " +
 			"exhaustive matrix kinds{uri,uris,uripost,raw,jsonl,jsonarr}x preload + {grpcjson,httpscn,grpcscn,genjson} x limit 0..4 x passes 0..3 x n 1..4 x consumers{1,3} with consumers always ready " +
 			"(unbounded cells cancelled after cap acquisitions); cancellation after every number of deliveries 1..M+1 of bounded cells; consumers that stop after cap acquisitions followed by a cancel (stall); " +
-			"cancellation from inside the k-th file operation (ext) and from a timer (tcan); a slice through the real core/engine with 1 or 3 instances and a recording gun; random larger cells in all modes. " +
+			"cancellation from inside the k-th file operation (ext) and from a timer (tcan); a slice through the real core/engine with 1 or 3 instances and a recording gun, " +
+			"also with a schedule without any token (idle: the engine cancels the provider inside its gate-th file operation, e.g. in the middle of LoadAmmo); four shapes of line ends (eol: LF, no final newline, CRLF, surrounding blank lines); random larger cells in all modes. " +
 			"Every cell is non-trivial (class = mode:kind/preload/bound shape)",
 	})
 }
